@@ -500,9 +500,11 @@ qb_vsnprintf_serialize(char *serialize, size_t max_len,
 	 */
 	if ((qb_xc = strchr(serialize, QB_XC)) != NULL) {
 		*qb_xc = *(qb_xc + 1)? '|' : '\0';
-		if (*qb_xc == '\0') {
+		if (*qb_xc == '\0' && fmt[qb_xc - serialize + 1] == '\0') {
 			/* the format just got shorter, and the reader looks
-			 * for the arguments right behind its terminator */
+			 * for the arguments right behind its terminator
+			 * (a format that was cut off by max_len stays
+			 * "too long", though) */
 			location = (qb_xc - serialize) + 1;
 		}
 	}
